@@ -229,7 +229,13 @@ def injected_io_faults(ctx, rng):
                 ctx.note("injection point %s #%d not reached" % (what, k))
                 continue
             if oc == "ok":
-                ctx.violation("partial", dict(kind="partial", entry="zp.apply/injected", sub="ok_on_io_fault", what=what), dict(syscall=sysc, nth=k, error=err), files=[pf])
+                # success is only acceptable when the patch really took full effect (the failed call was retried / not needed)
+                got_files, got_dirs = zp.snapshot(root)
+                diffs = zp.compare(model, got_files, got_dirs)
+                if diffs:
+                    ctx.violation("partial", dict(kind="partial", entry="zp.apply/injected", sub="ok_on_io_fault", what=what), dict(syscall=sysc, nth=k, error=err, diffs=[list(d) for d in diffs[:4]]), files=[pf])
+                else:
+                    ctx.note("injected %s fault absorbed: apply succeeded and the tree is complete" % what)
             elif oc == "panic" or oc.startswith("no-record"):
                 ctx.violation("panic", dict(kind="panic", entry="zp.apply/injected", sub="crash_on_io_fault", what=what), dict(syscall=sysc, nth=k, error=err, out=p.stdout[-600:], err=p.stderr[-300:]), files=[pf])
     if len(ctx.stats.samples) < 4:
